@@ -4,6 +4,7 @@ import (
 	"fmt"
 	"go/token"
 	"go/types"
+	"os"
 	"sort"
 	"strings"
 
@@ -17,6 +18,9 @@ func (e *Engine) VerifyFunction(fn *ssa.Function, fc *FuncContract) (vc *VC) {
 	vc.RootFC = fc
 	defer func() {
 		if r := recover(); r != nil {
+			if os.Getenv("GOVC_PANIC") != "" {
+				panic(r)
+			}
 			vc.Fatal = fmt.Sprintf("engine panic in %s: %v", FuncKey(fn), r)
 		}
 	}()
@@ -100,6 +104,15 @@ func (e *Engine) VerifyFunction(fn *ssa.Function, fc *FuncContract) (vc *VC) {
 	fr.run(st, True)
 	if vc.Fatal != "" {
 		return vc
+	}
+	// every `on call` clause must match at least one call site (a hook that never fires silently proves nothing)
+	for _, c := range fc.Clauses {
+		if b, isLit := c.Expr.(*EBool); isLit && !b.Val {
+			continue // `assert false` = "never called": matching nothing is the point
+		}
+		if c.Kind == "oncall" && !vc.hookMatched[c] {
+			vc.contractError(c, fmt.Errorf("`on call %s` matches no call reached in %s (renamed callee? use -dump KEY -calls)", c.Callee, key))
+		}
 	}
 	// postconditions at every return
 	ensures := append(fc.Of("ensures"), fc.Of("proves")...)
